@@ -544,7 +544,11 @@ pub fn run_c15(cfg: &Config) -> i32 {
 			};
 			let ra = gen::gen_value(&mut rng, &p, 0);
 			let mut a = from_rval(&ra);
-			churn(&mut rng, &mut a);
+			if let Err(p) = guard(std::panic::AssertUnwindSafe(|| churn(&mut rng, &mut a))) {
+				rep.evaluations += 1;
+				rep.violation("C15:panic", format!("an object operation (sort / canonicalize / remove_at / push / clone_from) panicked while preparing an operand from {}: {}", show(doc_of(&ra).as_bytes()), p), json!({"sub": "unordered-pair", "a": doc_of(&ra), "b": doc_of(&ra)}));
+				continue;
+			}
 			let ra2 = to_rval(&a);
 			let rb = if rng.chance(2, 3) { shuffle_deep(&mut rng, &ra2) } else { mutate_once(&mut rng, &ra2) };
 			let mut b = from_rval(&rb);
